@@ -330,6 +330,40 @@ def _magnitude_case(E):
     same_structure(E, 'magnitude', g.structure, f.structure)
 
 
+def _boundary_counts_case(case, tier, seed):
+    """ground: counts at the printer's notation thresholds (six-digit rounding across powers of ten, the 1e-4 and
+    1e6 switches) print to a string that parses back to the same count within six significant digits"""
+    import periodictable as pt
+    from periodictable import formulas
+    res = dict(paths=1, claims=0, discharged=0, queries=0, distinct=0, violations=[], inconclusive=[], samples=[], solver_s=0.0, complete=True)
+    counts = []
+    for k in range(-9, 13):
+        for d in (0.0, 1e-9, 4.9e-7, 5.1e-7, 3e-6, -1e-9, -4.9e-7, -5.1e-7, -3e-6):
+            counts.append(10.0 ** k * (1 + d))
+    counts += [0.5, 0.15, 0.999999, 0.9999996, 1.0000004, 2.0, 1.5, 123456.5, 1234567.0, 0.000123456789, 99999.95, 999999.5, 999999.49]
+    for c in counts:
+        if c == 1:
+            continue
+        res['claims'] += 1
+        f = formulas.formula([(c, pt.Fe), (2, [(c, pt.O), (1, pt.H)])])
+        s = str(f)
+        try:
+            g = formulas.formula(s)
+            got = [g.structure[0][0], g.structure[1][1][0][0]] if len(g.structure) == 2 and g.structure[0][1] is pt.Fe else None
+            ok = got is not None and all(abs(x - c) <= 1e-5 * c for x in got) and repr(f) == "formula('%s')" % s
+            obs = 'parses to %r' % (g.structure,)
+        except Exception as e:   # noqa: BLE001
+            ok, obs = False, '%s: %s' % (type(e).__name__, e)
+        if ok:
+            res['discharged'] += 1
+        elif len(res['violations']) < 5:
+            res['violations'].append(dict(case=case.name, claim='boundary_count_roundtrip', values={'count': repr(c)}, observed=[s, obs],
+                                          how='concrete count at a notation threshold'))
+    res['queries'] = res['distinct'] = res['claims']
+    res['samples'] = [dict(counts=len(counts))]
+    return res
+
+
 def cases(tier):
     th = tier == 'thorough'
     mp = 256 if not th else 2048
@@ -354,5 +388,6 @@ def cases(tier):
         out.append(Case('roundtrip_arith[%s]' % k, _arith_case(k), max_paths=mp, timeout_ms=20000, nsamples=2, conc_rel=1e-5))
     for k in ['weight', 'volume', 'nested']:
         out.append(Case('roundtrip_mixture[%s]' % k, _mixture_case(k), max_paths=mp, timeout_ms=20000, nsamples=2, conc_rel=1e-5))
+    out.append(Case('boundary_counts', None, custom=_boundary_counts_case))
     out.append(Case('magnitude_replay', _magnitude_case, max_paths=4, nsamples=12 if not th else 60, conc_rel=1e-5))
     return out
